@@ -214,15 +214,16 @@ def body_epsilon(H, case, fs):
 def body_shape(H, case, fs):
     dev = S.symbolic_device(H, "bar0", case.seed, symbolic_mesh=False)
     ne = len(dev.mesh.edge_mesh.edges)
-    rows = H.choice("rows", [ne, ne - 1, 1])
-    A = H.reals2("A", rows, 3, lo=-1.0, hi=1.0)
+    rows, cols = H.choice("shape", [(ne, 3), (ne, 2), (ne - 1, 3), (1, 3), (ne, 1), (ne - 1, 2), (ne + 1, 2)])
+    A = H.reals2("A", rows, cols, lo=-1.0, hi=1.0)
     opts = S.make_options(output_file="/work/out.h5")
     try:
         S.make_solver(H, dev, opts, A=lambda x, y, z: A)
         rejected = False
     except ValueError as e:
         rejected = "Unexpected shape for vector_potential" in str(e)
-    H.prove(f"vector potential with {rows} rows for {ne} edges: rejected iff the shape is wrong", rejected == (rows != ne))
+    ok_shape = rows == ne and cols in (2, 3)
+    H.prove(f"vector potential of shape ({rows}, {cols}) for {ne} edges: rejected iff it is not ({ne}, 2) or ({ne}, 3)", rejected == (not ok_shape))
     if rejected:
         no_output(H, fs, "wrong shape")
 
